@@ -628,6 +628,9 @@ def scn_sha(scn):
     return sha({k: v for k, v in scn.items() if k not in ("id", "gen")})
 
 
+WALK_EVENTS = ("root", "entry", "break", "leave", "dequeue", "drained", "done")     # the events Trace_Walker / Trace_WalkerL explain
+
+
 def validate_traces(ctx, module, recs, shards=8, guard_event="entry"):
     """Trace validation of recorded runs by a Trace_* module (TRACEOK line per accepted run, runs consumed in order)."""
     def one(i):
